@@ -46,8 +46,8 @@ EXPLANATION = (
     'it; the import collectors unwrap containers alike. Decides these structural necessary '
     'conditions; does not decide lexical well-formedness of the whole output nor uniqueness of '
     'generated names.'
-    ' RD (decision drift, stonelint.conddrift): the tests of the functions this property is anchored in (stonelint.ownership) are compared with reference/conditions.json; a relation, polarity or connective changed over the same operands, or an operand purely added or dropped, is a violation; re-spellings and new or removed tests are not claimed.'
-    " RE (expression drift, stonelint.exprdrift): the same functions' attribute names, variable reads, simple statements, calls and arithmetic/slice literals are compared with reference/expressions.json; a substituted attribute or variable, a dropped call or assignment, swapped arguments or a changed literal is a violation; any other edit is not claimed. RC (call-condition drift, stonelint.conddrift.run_calls): for every call of a repository or imported-library function in those functions, the path conditions of its occurrences are compared with reference/conditions.json by truth table; an assignment under which the function used to make the call and now completes without it is a violation (tests on memo tables, emptiness of the iterated collection and earlier refusals excepted; re-spelled conditions are not claimed). MK (memo-key rule, stonelint.memo): a memo table or done-set the reference tree does not have must be keyed by every access path the skipped code reads, injectively and type-aware.")
+    ' RD (effect-condition drift, stonelint.effects): for the functions this property is anchored in (stonelint.ownership) the path formula of every raise / return / continue / break / assignment / call statement is compared with reference/effects.json by truth table over the leaf tests (so nested vs merged tests, guard clauses vs if/else ladders, De Morgan forms read alike); an effect lost on a path, or a control effect gained on one, is a violation; changed texts and re-spelled tests are not claimed.'
+    " RE (expression drift, stonelint.exprdrift): the same functions' attribute names, variable reads, simple statements, calls and arithmetic/slice literals are compared with reference/expressions.json; a substituted attribute or variable, a dropped call or assignment, swapped arguments or a changed literal is a violation; any other edit is not claimed. RC (call-condition drift, stonelint.effects.run_calls): for every call of a repository or imported-library function in those functions, the path conditions of its occurrences are compared with reference/effects.json by truth table; an assignment under which the function used to make the call and now completes without it is a violation (tests on memo tables, emptiness of the iterated collection and earlier refusals excepted; re-spelled conditions are not claimed). MK (memo-key rule, stonelint.memo): a memo table or done-set the reference tree does not have must be keyed by every access path the skipped code reads, injectively and type-aware.")
 ASSUMPTIONS = [
     'Backends are run with the options and route attributes they require (auth/host/style '
     'attributes present, client-args JSON of the documented shape): sites that only fail '
@@ -118,12 +118,12 @@ def run(pm, ctx):
 
 # ---------------------------------------------------------------- R2 + template R5
 
-    from ..conddrift import run_decisions
+    from ..effects import run_decisions
     from ..ownership import OWN
     run_decisions(pm, ctx, 'C17-RD', OWN['C17'])
     from .. import exprdrift
     exprdrift.run(pm, ctx, 'C17-RE', OWN['C17'])
-    from ..conddrift import run_calls
+    from ..effects import run_calls
     run_calls(pm, ctx, 'C17-RC', OWN['C17'])
     from .. import memo
     memo.run(pm, ctx, 'C17-MK', OWN['C17'])
